@@ -285,6 +285,21 @@ pub fn crash_histories(thorough: bool) -> Vec<(Value, usize, u64)> {
     for (ops, t) in ex {
         out.push((hist("empty", u4.clone(), &cfg, ops), t, 3));
     }
+    // one record per rollback segment: every commit rolls the log over, pruning unlinks segments
+    let mut cfg1 = cfg_crash();
+    cfg1.seg_size = 4096;
+    let ex1: Vec<(Vec<Value>, usize)> = vec![
+        (vec![c(vec![w(0, 1)]), c(vec![w(1, 1)])], 1),
+        (vec![c(vec![w(0, 1)]), c(vec![w(1, 1)]), c(vec![w(2, 1333)])], 2),
+        (vec![c(vec![w(0, 1)]), c(vec![w(1, 1)]), c(vec![w(2, 1)]), c(vec![del(0)])], 3),
+        (vec![c(vec![w(0, 1)]), c(vec![w(1, 1)]), json!({"rb": 1})], 2),
+        (vec![c(vec![w(0, 1)]), c(vec![w(1, 1)]), c(vec![w(2, 1)]), json!({"rb": 1})], 3),
+        (vec![c(vec![w(0, 1)]), c(vec![w(1, 1)]), c(vec![w(2, 1)]), json!({"rb": 1}), c(vec![w(3, 1)])], 4),
+        (vec![c(vec![w(0, 1)]), c(vec![w(1, 1)]), c(vec![w(2, 1)]), json!({"reopen": {}})], 3),
+    ];
+    for (ops, t) in ex1 {
+        out.push((hist("empty", u4.clone(), &cfg1, ops), t, 3));
+    }
     // cluster: page elision / un-elision and tombstones under crash
     let cl = vec!["CL12:17-23"];
     let exc: Vec<(Vec<Value>, usize)> = vec![
